@@ -15,6 +15,9 @@ package main
 //     compared with coq/theories/Hostile.v (settled after each frame) inside Coq;
 //   * oracle-only: floods without reading, mutated valid traffic, hostile length fields, abrupt
 //     disconnects: only "server alive" and "probe answered" are judged.
+// Further families: c12burst.go (bursts with the message type varied), c12svc0.go (volleys aimed at
+// service 0 itself, then fresh clients that have to authenticate; model Auth.v), c12lost.go (clients
+// gone before their answers are written, on every transport).
 
 import (
 	"bufio"
@@ -1025,6 +1028,8 @@ func (run *c12run) judge(res *hx.Result, sw map[string]bool, desc string) {
 func runC12(res *hx.Result, rng *hx.Rng, tier string, outdir string) {
 	res.Rule = "scripts of raw frames from one authenticated client (all 8 message types, services 0/1/2/unknown, objects, every generic and directory action, " +
 		"valid / cut / wrong-object payloads, duplicate and conflicting registrations, terminate, floods, disconnects mid-message) against a server in a child process, then a probe client; " +
+		"volleys of authenticate calls with wrong / wrongly typed / empty / cut / huge credentials aimed at service 0 from authenticated and not yet authenticated connections, several volleys per server, " +
+		"then fresh clients with valid credentials that must authenticate and be answered by every object; clients gone before their answers are written on unix/tcp/tcps/pipe, then fresh clients on every transport; " +
 		"non-trivial = the script contains a malformed or conflicting request; distinct by sha256 of the frames"
 	root := os.Getenv("VERIF_ROOT")
 	if root == "" {
